@@ -372,14 +372,7 @@ Proof. repeat split; try (vm_compute; reflexivity). vm_compute. auto 80. Qed.
    did, fail the conditions, and the diagnosis names the entry *)
 Example C07_moved_case_rejected :
   let lsw' := fun n => if bytes_eqb n (B "Listen") then Some KIntransitive else JsonCodec.load_switch n in
-  let E' := {| ge_wfuncs := ge_wfuncs genv; ge_rfuncs := ge_rfuncs genv; ge_enc_methods := ge_enc_methods genv;
-               ge_dec_methods := ge_dec_methods genv; ge_sw_enc := ge_sw_enc genv; ge_sw_enc_default := ge_sw_enc_default genv;
-               ge_sw_dec := (([B "Listen"], B "OnIntransitiveActivity/unmapIntransitiveActivityProperties") :: ge_sw_dec genv);
-               ge_sw_dec_default := ge_sw_dec_default genv;
-               ge_sw_typer := ge_sw_typer genv; ge_sw_typer_default := ge_sw_typer_default genv;
-               ge_layout := ge_layout genv; ge_layout_endpoints := ge_layout_endpoints genv;
-               ge_leaf_w := ge_leaf_w genv; ge_leaf_r := ge_leaf_r genv; ge_leaf_layouts := ge_leaf_layouts genv; ge_sniff := ge_sniff genv;
-               ge_ptr_iri := ge_ptr_iri genv; ge_endpoints_codec := ge_endpoints_codec genv |} in
+  let E' := set_sw_dec genv (([B "Listen"], B "OnIntransitiveActivity/unmapIntransitiveActivityProperties") :: ge_sw_dec genv) in
   json_kind_cond JsonCodec.registry lsw' all_names = false /\
   json_kind_first_bad JsonCodec.registry lsw' all_names = Some (B "Listen", Some KActivity, Some KIntransitive) /\
   gob_kind_cond E' all_names = false /\
